@@ -488,3 +488,44 @@ func (c *Ctx) reflectSetArgs(rule string, dt *core.DynTypes, fn *ssa.Function, b
 			"reflect.ValueOf(nil) is the zero Value; "+m+" panics on it instead of the nil being rejected (or stored); provenance of x: "+dt.Of(x, b).String())
 	}
 }
+
+// ---- (e) reflect.Value.String -----------------------------------------------------------------------------------------
+//
+// R-VALSTRING (C17): reflect.Value.String() does not panic for a non-string Value - it returns a placeholder such as
+// "<int64 Value>". Used to build an error path segment or message from a map key or item it silently replaces the
+// element's identity. Every call needs, on every path, the fact Kind() == reflect.String on the same Value.
+var factKindString = kindFact{accept: func(k int64, eq bool) bool { return eq && k == 24 }}
+
+func (c *Ctx) ruleValueString(rule string, fns map[*ssa.Function]bool) {
+	n := 0
+	for _, fn := range c.M.SortedFuncs(fns) {
+		cnt := 0
+		for _, b := range fn.Blocks {
+			for _, in := range b.Instrs {
+				call, ok := in.(*ssa.Call)
+				if !ok || reflectValueMethod(call) != "String" {
+					continue
+				}
+				n++
+				cnt++
+				path := c.reflPath(call.Call.Args[0], 0)
+				k := key(rule, c.M.Key(fn), sprintf("(reflect.Value).String on %s #%d", c.stable(fn, path), cnt))
+				if conv, ok := call.Call.Args[0].(*ssa.Call); ok && reflectValueMethod(conv) == "Convert" && len(conv.Call.Args) == 2 {
+					if t := core.ReflectTypeOfStatic(conv.Call.Args[1]); t != nil {
+						if bt, ok := t.Underlying().(*types.Basic); ok && bt.Info()&types.IsString != 0 {
+							c.R.Ok(rule, k, c.M.InstrPos(call), "reflect.Value.String()", "the Value is the result of Convert to a string type")
+							continue
+						}
+					}
+				}
+				if core.MustHold(fn, c.kindEst(path, factKindString, 0))[b] {
+					c.R.Ok(rule, k, c.M.InstrPos(call), "reflect.Value.String()", "on every path Kind() == reflect.String was established for this Value")
+				} else {
+					c.R.Bad(rule, k, c.M.InstrPos(call), "reflect.Value.String() on a Value that is not known to hold a string",
+						"for any other kind String() returns a placeholder like \"<int64 Value>\" instead of the value: an error path segment or message built from it no longer names the element (use fmt %v or Interface())")
+				}
+			}
+		}
+	}
+	c.R.Note("%s: %d calls of reflect.Value.String in scope", rule, n)
+}
